@@ -3,7 +3,9 @@
 (* One log line per configuration:                                                         *)
 (*   ev = "geom":  the eight state entries, for each component (Y, C1, C2) the recorded    *)
 (*                 subband_width/height per level and the recorded slice_left/right/top/   *)
-(*                 bottom per level and slice index, and slices_have_same_dimensions.      *)
+(*                 bottom per level and slice index, and slices_have_same_dimensions; also *)
+(*                 the flag as reported for a codec configuration of these sizes           *)
+(*                 (cf_frames / cf_fields, codec_features_to_trivial_level_constraints).   *)
 (*   ev = "bytes": slices_x, slices_y, numerator, denominator and slice_bytes(sx, sy) for   *)
 (*                 every slice in raster order (small integers).                           *)
 (*   ev = "bytesbig": the same with every number as base-2^15 limbs (BigNat).              *)
@@ -66,6 +68,10 @@ GeomClause(e) ==
   ELSE IF badX # {} THEN Verdict("PartitionX", TRUE, CHOOSE p \in badX : TRUE)
   ELSE IF badY # {} THEN Verdict("PartitionY", TRUE, CHOOSE p \in badY : TRUE)
   ELSE IF e.flag # RecordedAllSame(e) THEN Verdict("SameDimsFlag", TRUE, <<0, 0>>)
+  \* the flag as reported for a codec configuration with these component sizes (pictures are frames / fields);
+  \* -1 = the sizes are not those of a video format
+  ELSE IF e.cf_frames # -1 /\ (e.cf_frames = 1) # RecordedAllSame(e) THEN Verdict("ReportedFlagFrames", TRUE, <<0, 0>>)
+  ELSE IF e.cf_fields # -1 /\ (e.cf_fields = 1) # RecordedAllSame(e) THEN Verdict("ReportedFlagFields", TRUE, <<0, 0>>)
   ELSE IF Small(e) /\ ~SpecAgrees(e) THEN Verdict("SpecFormula", FALSE, <<0, 0>>)
   ELSE Verdict("ok", FALSE, <<0, 0>>)
 
